@@ -292,6 +292,12 @@ func runStopDuringClose() (*cloObs, string) {
 //         6: by the Will Delay timer, 7: at start-up (the delay elapsed while the broker was down)
 // kind 8: a v5 DISCONNECT that is a protocol error (a non-zero Session Expiry Interval after a CONNECT with 0): the
 //         connection ends by protocol error, not by a normal DISCONNECT - the Will is published (C11)
+// kind 9: a BUSY client (keep-alive 8 s, 200 PINGREQs per millisecond) is taken over while its reader is in the middle
+//         of that traffic, and falls silent afterwards without closing: the new CONNECT is answered at once, not when
+//         the old connection's keep-alive runs out (C10 "within bounded time"); ten rounds, every one must be fast
+// kind 10: the broker is shut down while a publisher's QoS 1 messages for a durable session that is away are still in
+//          the routing queue: after the restart the session is sent every message that was acknowledged to the
+//          publisher (C20 "undelivered messages of durable sessions are handed to persistence before shutdown returns")
 // kind 3: not stalled but SLOW: a v5 client that keeps reading (64 bytes per millisecond) while 30 KB are on their way
 //         to it is taken over (C10: the new CONNECT is answered; the old connection gets "DISCONNECT 'session taken
 //         over'" - as a packet: everything it is sent decodes, and that DISCONNECT is the last thing before the end)
@@ -310,6 +316,12 @@ func runStalled(kind int) (*stallObs, string) {
 	}
 	if kind == 8 {
 		return runWillAfterInvalidDisconnect()
+	}
+	if kind == 9 {
+		return runBusyTakeover()
+	}
+	if kind == 10 {
+		return runShutdownUnderTraffic()
 	}
 	obs := &stallObs{}
 	b, err := NewBroker(BrokerOpts{Preempt: true})
@@ -610,6 +622,171 @@ func runWillAfterInvalidDisconnect() (*stallObs, string) {
 	obs.OK = w.WaitFor(3*time.Second, func() bool { return len(w.Pubs) >= 1 })
 	if !obs.OK {
 		return obs, "the connection was ended for a protocol error (the invalid DISCONNECT) and no Will was published"
+	}
+	return obs, ""
+}
+
+func runBusyTakeover() (*stallObs, string) {
+	obs := &stallObs{OK: true, Closed: true}
+	ping, _ := mqttp.Encode(mqttp.NewPingReq(mqttp.ProtocolV311))
+	burst := make([]byte, 0, 400)
+	for i := 0; i < 200; i++ {
+		burst = append(burst, ping...)
+	}
+	for round := 0; round < 10; round++ {
+		b, err := NewBroker(BrokerOpts{Preempt: true})
+		if err != nil {
+			return obs, err.Error()
+		}
+		c := b.Dial()
+		if _, err := c.Connect(ConnectOpts{ID: "busy", Ver: mqttp.ProtocolV311, Clean: true, KeepAlive: 8}); err != nil {
+			b.Drop()
+			return obs, "connect: " + err.Error()
+		}
+		stop := make(chan struct{})
+		go func() { // the PINGRESPs are read away: the broker's writer is never blocked
+			for {
+				if _, err := c.Recv(100 * time.Millisecond); err != nil && err != errTimeout {
+					return
+				}
+			}
+		}()
+		go func() {
+			for {
+				select {
+				case <-stop:
+					return
+				default:
+					_ = c.SendRaw(burst)
+					time.Sleep(time.Millisecond)
+				}
+			}
+		}()
+		time.Sleep(20 * time.Millisecond)
+		c2 := b.Dial()
+		t0 := time.Now()
+		answered := make(chan time.Duration, 1)
+		go func() {
+			if _, err := c2.Connect(ConnectOpts{ID: "busy", Ver: mqttp.ProtocolV311, Clean: true}); err == nil {
+				answered <- time.Since(t0)
+			}
+		}()
+		time.Sleep(30 * time.Millisecond)
+		close(stop) // the old client falls silent; it does not close its connection
+		var took time.Duration
+		select {
+		case took = <-answered:
+		case <-time.After(3 * time.Second):
+			took = -1
+		}
+		b.Drop()
+		if took < 0 {
+			obs.OK = false
+			return obs, fmt.Sprintf("round %d: the CONNECT that takes the busy client's session over was not answered within 3 s", round)
+		}
+	}
+	return obs, ""
+}
+
+func runShutdownUnderTraffic() (*stallObs, string) {
+	// how much is still in the routing queue when the shutdown starts is a matter of scheduling: three rounds
+	for round := 0; round < 3; round++ {
+		if obs, msg := shutdownUnderTrafficOnce(); msg != "" || !obs.OK {
+			return obs, msg
+		}
+	}
+	return &stallObs{OK: true, Closed: true}, ""
+}
+
+func shutdownUnderTrafficOnce() (*stallObs, string) {
+	obs := &stallObs{Closed: true}
+	b, err := NewBroker(BrokerOpts{})
+	if err != nil {
+		return obs, err.Error()
+	}
+	pers := b.Persist
+	sc := b.Dial()
+	if _, err := sc.Connect(ConnectOpts{ID: "dur", Ver: mqttp.ProtocolV311, Clean: false}); err != nil {
+		b.Drop()
+		return obs, "connect: " + err.Error()
+	}
+	sa := sc.Auto(false)
+	_ = sa.SendL(mkSubscribe(mqttp.ProtocolV311, 1, []string{"q/#"}, []byte{1}))
+	if !sa.WaitFor(5*time.Second, func() bool { return len(sa.Others) >= 1 }) {
+		b.Drop()
+		return obs, "no suback"
+	}
+	before := b.Met.Disconnected()
+	sc.Close()
+	deadline := time.Now().Add(5 * time.Second)
+	for b.Met.Disconnected() == before && time.Now().Before(deadline) {
+		time.Sleep(time.Millisecond)
+	}
+	pc := b.Dial()
+	if _, err := pc.Connect(ConnectOpts{ID: "P", Ver: mqttp.ProtocolV311, Clean: true}); err != nil {
+		b.Drop()
+		return obs, "publisher: " + err.Error()
+	}
+	pa := pc.Auto(false)
+	const n = 3000
+	for i := 0; i < n; i++ {
+		_ = pa.SendL(mkPublish(mqttp.ProtocolV311, "q/x", []byte{byte(i >> 8), byte(i)}, 1, false, uint16(1+i)))
+	}
+	// as soon as half of them have been acknowledged the broker goes down
+	pa.WaitFor(5*time.Second, func() bool { return len(pa.Others) >= n/2 })
+	atomic.StoreInt32(&b.mgrDown, 1)
+	stopped := make(chan struct{})
+	go func() { _ = b.Mgr.Stop(); _ = b.Mgr.Shutdown(); b.ShutdownTopics(); close(stopped) }()
+	select {
+	case <-stopped:
+	case <-time.After(10 * time.Second):
+		return obs, "shutdown did not return"
+	}
+	b.Drop2()
+	acked := map[int]bool{}
+	pa.mu.Lock()
+	for _, o := range pa.Others {
+		if a, ok := o.(*mqttp.Ack); ok && a.Type() == mqttp.PUBACK {
+			id, _ := a.ID()
+			acked[int(id)-1] = true
+		}
+	}
+	pa.mu.Unlock()
+	nb, err := NewBroker(BrokerOpts{Persist: pers})
+	if err != nil {
+		return obs, "restart: " + err.Error()
+	}
+	defer nb.Drop()
+	rc := nb.Dial()
+	if _, err := rc.Connect(ConnectOpts{ID: "dur", Ver: mqttp.ProtocolV311, Clean: false}); err != nil {
+		return obs, "reconnect: " + err.Error()
+	}
+	ra := rc.Auto(false)
+	got := map[int]bool{}
+	have := func() int {
+		for _, m := range ra.Pubs[len(got):] {
+			_ = m
+		}
+		return len(ra.Pubs)
+	}
+	ra.WaitFor(10*time.Second, func() bool { return have() >= len(acked) })
+	time.Sleep(100 * time.Millisecond)
+	ra.mu.Lock()
+	for _, m := range ra.Pubs {
+		if len(m.Payload()) == 2 {
+			got[int(m.Payload()[0])<<8|int(m.Payload()[1])] = true
+		}
+	}
+	ra.mu.Unlock()
+	missing := 0
+	for i := range acked {
+		if !got[i] {
+			missing++
+		}
+	}
+	obs.OK = missing == 0 && len(acked) > 0
+	if !obs.OK {
+		return obs, fmt.Sprintf("%d of the %d messages acknowledged to the publisher before the shutdown were not delivered after the restart", missing, len(acked))
 	}
 	return obs, ""
 }
